@@ -63,6 +63,10 @@ def hist_to_case(hist, cid, final_restore=False):
                 return None
             ops.append("sn")
             pend = None
+        elif a == "reap":
+            if pend is not None:
+                return None
+            ops.append("r")
         elif a == "crash":
             if pend is None:
                 ops.append("x")
